@@ -71,17 +71,53 @@ def _body(nodes, i):
     return c01.formula_of(nodes, i)[1:]
 
 
+KINDS = ['NameError', 'UnboundLocalError', 'RecursionError', 'KeyError', 'IndexError', 'ValueError', 'TypeError',
+         'ZeroDivisionError', 'AssertionError', 'AttributeError', 'NotImplementedError', 'RuntimeError', 'PluginError']
+# text literals placed in the formula text (and so in the generated python code that the error messages quote)
+LITS = ['{', '}', '{0}', '{name}: {0}', '%s', '%(x)s %d', '%', '\\', 'a\nb', 'say "hi"', "it's", '{{}}', '${x}', '\\n',
+        '{0!r:>{1}}', '{1}{2}', 'a\r\nb', '\\"', '{:}', '{', '}}']
+# unknown function names (legal spellings; pycel lowercases, strips _xlfn., maps . to _)
+NAMES = ['FOO', 'Foo', '_XLFN.FOO', 'FOO.BAR', 'F00_X', '_FOO', 'FOO_', 'ÄBC', 'XLOOKUP', '_xlfn.XLOOKUP', 'FOO1',
+         'R1C1X']
+
+
+def raw_of(fail):
+    """driver token of a failure mode: the Python class as eval_func's except clauses see it"""
+    if ':' not in fail:
+        return fail
+    head, _, cls = fail.partition(':')
+    raw = 'name' if cls in ('NameError', 'UnboundLocalError') else 'rec' if cls == 'RecursionError' else 'other'
+    return f'{head}:{raw}'
+
+
+def _lit(attrs, i):
+    a = attrs[i]
+    return LITS[a[3] % len(LITS)] if len(a) > 3 and a[3] is not None else None
+
+
+def _q(text):
+    return '"' + text.replace('"', '""') + '"'
+
+
 def formula_text(nodes, attrs, i, transient=True):
     """Excel text of formula node i with its failure mode (transient=False: k-th-call faults removed)"""
-    fail, pre, post = attrs[i]
+    a = attrs[i]
+    fail, pre, post = a[0], a[1], a[2]
+    lit = _lit(attrs, i)
+    name = NAMES[a[4] % len(NAMES)] if len(a) > 4 and a[4] is not None else 'FOO'
     body = _body(nodes, i)
-    if fail == 'unk':
-        body = f'{body}+FOO()'
-    elif fail == 'raise':
-        body = f'FAILAT({i},0,{body})'
-    elif fail.startswith('at') and transient:
-        body = f'FAILAT({i},{int(fail[2:])},{body})'
-    elif nodes[i][2] in ('cat', 'add') and (pre or post):
+    wrapped = False
+    if lit is not None and nodes[i][2] != 'cse':
+        body = f'IF(LEN({_q(lit)})>=0,{body},0)'           # value-neutral: IF is eager and returns the second argument
+        wrapped = True
+    head, _, cls = fail.partition(':')
+    if head == 'unk':
+        body = f'{body}+{name}({_q(lit) if lit is not None else ""})'
+    elif head == 'raise':
+        body = f'FAILAT({i},0,"{cls}",{body})'
+    elif head.startswith('at') and transient:
+        body = f'FAILAT({i},{int(head[2:])},"{cls}",{body})'
+    elif nodes[i][2] in ('cat', 'add') and (pre or post) and not wrapped:
         body = f'({body})'
     for q in range(pre):
         body = f'("{"ab"[q % 2]}"+1)+' + body
@@ -119,8 +155,16 @@ def compiler(case, inputs=None, consts=None, transient=True):
 
 
 def canon(exc):
+    """by the TYPE of the exception evaluate raised: pycel's own classes -> pycel:<class>; the RecursionError eval_func
+    re-raises deliberately (recognised by its text) -> reraised:RecursionError; anything else -> bare:<class>"""
+    if type(exc) is RecursionError and str(exc) == 'Do you need to use cycles=True ?':
+        return '!exc:reraised:RecursionError'
     t = core.canon_exc(exc)
     return t.split('(')[0]
+
+
+def _own(tok):
+    return tok.startswith('!exc:pycel:') or tok.startswith('!exc:reraised:') or tok == '!exc:own:*'
 
 
 def _eval(comp, addr):
@@ -146,11 +190,11 @@ def impl(case):
             new_ranges = [j for j in cones[op[1]] - built
                           if nodes[j][0] == 'R' or (nodes[j][0] == 'F' and nodes[j][2] == 'cse')]
             built |= cones[op[1]]
-            if len(new_ranges) >= 2 and o.startswith('!exc:pycel:'):
+            if len(new_ranges) >= 2 and _own(o):
                 # several ranges are first evaluated inside this call (graph construction); the order in which
                 # _process_gen_graph takes them (a LIFO work list) decides WHICH pycel error surfaces first and is not
                 # modelled: the class is compared up to "a pycel error" here
-                o = '!exc:pycel:*'
+                o = '!exc:own:*'
             out.append(o)
             ref.append((dict(inputs), dict(consts), op[1]))
         else:
@@ -185,7 +229,7 @@ def reference(case, inputs, consts, target):
 def model_lines(case):
     toks = ['c09', case['mode'], str(len(case['nodes']))]
     for n, a in zip(case['nodes'], case['attrs']):
-        toks += [a[0], str(a[1]), str(a[2]), '1' if (n[0] == 'F' and n[2] == 'cse') else '0']
+        toks += [raw_of(a[0]), str(a[1]), str(a[2]), '1' if (n[0] == 'F' and n[2] == 'cse') else '0']
         if n[0] == 'I':
             toks += ['I', n[2]]
         elif n[0] == 'F':
@@ -205,7 +249,7 @@ def model_lines(case):
 
 def same(impl_out, model_out):
     a, b = (impl_out or '').split(';'), (model_out or '').split(';')
-    return len(a) == len(b) and all(x == y or (x == '!exc:pycel:*' and y.startswith('!exc:pycel:'))
+    return len(a) == len(b) and all(x == y or (x == '!exc:own:*' and _own(y))
                                     for x, y in zip(a, b))
 
 
@@ -283,7 +327,7 @@ def _violations(case, impl_out):
         addr = nodes[op[1]][1]
         if o.startswith('!exc:bare'):
             yield k, f'op #{k} evaluate({addr}) escaped as a bare internal exception {o}'
-        elif o.startswith('!exc:pycel'):
+        elif _own(o):
             cone = _cones(nodes, consts)[op[1]]
             if not f.startswith('!exc') and not (cone & trans):
                 yield k, (f'op #{k} evaluate({addr}) raised {o} but a fresh compiler of the current workbook '
@@ -378,7 +422,10 @@ FIXED = {
 }
 
 
-def _history(nodes, failing, rng=None):
+REPAIRS = ['n:5/1', 'n:0/1', 's:', 's:97', 'n:7/1']       # constants written over the failing cell (falsy ones too)
+
+
+def _history(nodes, failing, repair='n:5/1'):
     """evaluate the top dependant, retry, the failing cell, every other cell, repair, everything twice"""
     cones = _cones(nodes)
     cells = [i for i, n in enumerate(nodes) if n[0] != 'R' and not (n[0] == 'F' and n[2] == 'cse')]
@@ -387,21 +434,44 @@ def _history(nodes, failing, rng=None):
     tgt = failing if failing in cells else top
     ops = [['E', top], ['E', top], ['E', tgt]] + [['E', i] for i in cells]
     if tgt in cells and nodes[tgt][0] == 'F' and not _special(nodes, tgt):
-        ops += [['S', tgt, 'n:5/1']]
+        ops += [['S', tgt, repair]]
     ops += [['E', i] for i in cells] + [['E', i] for i in reversed(cells)]
     return ops
 
 
+def _blank(nodes):
+    return [['ok', 0, 0, None, None] for _ in nodes]
+
+
+def _dress(nodes, attrs, k):
+    """deterministic hostile text: literal number k on the failing cells, k+1.. on the other formula cells (every
+    second case), unknown-function spelling k"""
+    q = k
+    for i, n in enumerate(nodes):
+        if n[0] != 'F' or _special(nodes, i):
+            continue
+        if attrs[i][0] != 'ok':
+            attrs[i][3], attrs[i][4] = k, k
+        elif k % 2 == 0 or attrs[i][1] or attrs[i][2]:
+            q += 1
+            attrs[i][3] = q
+    return attrs
+
+
 def fixed_cases():
-    modes = ['unk', 'raise', 'at1', 'at2']
+    modes = (['unk'] + [f'raise:{c}' for c in KINDS] +
+             ['at1:KeyError', 'at2:ValueError', 'at1:NameError', 'at1:RecursionError', 'at2:PluginError'])
+    k = 0
     for name, nodes in FIXED.items():
         fcells = [i for i, n in enumerate(nodes) if n[0] == 'F' and not (_special(nodes, i) and n[2] != 'cse')]
         for f in fcells:
             for m in modes:
-                attrs = [['ok', 0, 0] for _ in nodes]
+                attrs = _blank(nodes)
                 attrs[f][0] = m
+                k += 1
                 pos = {'chain': 'leaf' if f == 2 else 'mid', 'range': 'range', 'cse': 'cse'}[name]
-                yield {'mode': 'plain', 'nodes': nodes, 'attrs': attrs, 'ops': _history(nodes, f), 'pos': pos}
+                yield {'mode': 'plain', 'nodes': nodes, 'attrs': _dress(nodes, attrs, k),
+                       'ops': _history(nodes, f, REPAIRS[k % len(REPAIRS)]), 'pos': pos}
     # captured messages: an outer captured #VALUE! + an inner failure; two captures in one healthy formula, then a failure
     nodes = FIXED['chain']
     for pre, post in ((1, 0), (2, 0), (0, 1), (1, 1), (2, 1)):
@@ -409,30 +479,35 @@ def fixed_cases():
             for holder in (3, 4, 5):
                 if holder < f:
                     continue
-                for m in ('unk', 'raise', 'at1'):
-                    attrs = [['ok', 0, 0] for _ in nodes]
+                for m in ('unk', 'raise:KeyError', 'raise:NameError', 'at1:TypeError'):
+                    attrs = _blank(nodes)
                     attrs[f][0] = m
                     attrs[holder][1], attrs[holder][2] = pre, post
-                    ops = ([['E', 5]] if holder == 5 else []) + _history(nodes, f)
-                    yield {'mode': 'plain', 'nodes': nodes, 'attrs': attrs, 'ops': ops, 'pos': 'captured'}
+                    k += 1
+                    ops = ([['E', 5]] if holder == 5 else []) + _history(nodes, f, REPAIRS[k % len(REPAIRS)])
+                    yield {'mode': 'plain', 'nodes': nodes, 'attrs': _dress(nodes, attrs, k), 'ops': ops,
+                           'pos': 'captured'}
     # iterative: the chain, and cycles through the failing cell
     for f in (2, 3, 4):
-        for m in ('unk', 'raise'):
-            attrs = [['ok', 0, 0] for _ in nodes]
+        for m in ['unk'] + [f'raise:{c}' for c in KINDS]:
+            attrs = _blank(nodes)
             attrs[f][0] = m
-            ops = _history(nodes, f)
-            yield {'mode': 'iter', 'nodes': nodes, 'attrs': attrs, 'ops': ops, 'pos': 'chain'}
+            k += 1
+            ops = _history(nodes, f, REPAIRS[k % len(REPAIRS)])
+            yield {'mode': 'iter', 'nodes': nodes, 'attrs': _dress(nodes, attrs, k), 'ops': ops, 'pos': 'chain'}
             cut = [o for o in ops if o[0] == 'E']           # without the repair: retry and unrelated cells only
             yield {'mode': 'iter', 'nodes': nodes, 'attrs': attrs, 'ops': cut, 'pos': 'chain'}
     # A1 = 1, B1 = A1+B2, B2 = B1+A1 (cycle B1 <-> B2), B3 = B2+A1 (dependant), C1 = A1+A1 (unrelated)
     cyc = [['I', A + 'A1', 'n:1/1'], ['F', A + 'B1', 'add', [0, 2]], ['F', A + 'B2', 'add', [1, 0]],
            ['F', A + 'B3', 'add', [2, 0]], ['F', A + 'C1', 'add', [0, 0]]]
     for f in (1, 2):
-        for m in ('unk', 'raise'):
+        for m in ('unk', 'raise:KeyError', 'raise:RecursionError', 'raise:UnboundLocalError', 'raise:PluginError'):
             for pre in (0, 1):
-                attrs = [['ok', 0, 0] for _ in cyc]
+                attrs = _blank(cyc)
                 attrs[f][0] = m
                 attrs[3][1] = pre
+                k += 1
+                _dress(cyc, attrs, k)
                 for order in ([3, 3, f, 1, 2, 4, 3, 4], [f, 4, 3, 2, 1, 4], [4, 1, 1, 2, 3, 4]):
                     yield {'mode': 'iter', 'nodes': cyc, 'attrs': attrs, 'ops': [['E', i] for i in order],
                            'pos': 'cycle'}
@@ -502,11 +577,20 @@ def gen_case(rng, mode):
     fcells = [i for i, n in enumerate(nodes) if n[0] == 'F' and not (_special(nodes, i) and n[2] != 'cse')]
     if not fcells:
         return None
-    attrs = [['ok', 0, 0] for _ in nodes]
-    modes = ['unk', 'raise'] + ([] if mode == 'iter' else ['at1', 'at2', 'at3'])
+    attrs = _blank(nodes)
     failing = rng.sample(fcells, 1 if rng.random() < 0.75 or len(fcells) < 2 else 2)
     for f in failing:
-        attrs[f][0] = rng.choice(modes)
+        r = rng.random()
+        if r < 0.3:
+            attrs[f][0] = 'unk'
+            attrs[f][4] = rng.randrange(len(NAMES))
+        elif r < 0.75 or mode == 'iter':
+            attrs[f][0] = 'raise:' + rng.choice(KINDS)
+        else:
+            attrs[f][0] = f'at{rng.randint(1, 3)}:' + rng.choice(KINDS)
+    for i, n in enumerate(nodes):
+        if n[0] == 'F' and not _special(nodes, i) and rng.random() < 0.4:
+            attrs[i][3] = rng.randrange(len(LITS))
     for i in fcells:
         if nodes[i][2] not in ('cse',) and rng.random() < 0.25:
             attrs[i][1] = rng.choice([1, 1, 2])
@@ -539,7 +623,7 @@ def gen_case(rng, mode):
             cand = [f for f in failing if f in built and not _special(nodes, f)]
             if cand:
                 f = rng.choice(cand)
-                ops.append(['S', f, _tok(rng.choice([5, 7, 'a']))])
+                ops.append(['S', f, _tok(rng.choice([5, 7, 'a', 0, '']))])
                 overwritten.add(f)
         else:
             cand = [i for i in built if nodes[i][0] == 'F' and not _special(nodes, i)]
